@@ -128,6 +128,7 @@ impl Ctx {
             })
             .collect();
         let sched = match case.mode {
+            Mode::S if case.strategy == Strategy::Script => Some(Sched::with_script(case.script.clone())),
             Mode::S => Some(Sched::new(case.strategy, case.sched_seed)),
             _ => None,
         };
